@@ -34,5 +34,10 @@ WellFormed ==
       /\ pos.a >= 1 /\ pos.b < Len(rows) /\ pos.b - pos.a >= 3
       /\ sc.order \in 0..3 /\ sc.limits \in {"none", "lower", "upper", "both"}
 Combos(kn, rot) == {LET sc == Scenario(i, WTab[kn], Dim(kn)[2], rot) IN <<sc.grid, sc.limits, sc.order>> : i \in 1..NScen(Dim(kn)[1])}
+\* the row orders are permutations of the table rows; the alternative grid keeps length and end points
+RowOrdersOk == \A ro \in {"ascending", "descending", "shuffled"} : {RowPerm(ro, Dim(kern)[2])[i] : i \in 1..Dim(kern)[2]} = 1..Dim(kern)[2]
+AltGridOk == LET rows == TLCEval(GridRows(S.grid, Dim(kern)[2])) IN
+             AltOk(rows) => LET a == AltRows(rows) IN /\ Len(a) = Len(rows) /\ a[1] = rows[1] /\ a[Len(a)] = rows[Len(rows)] /\ a # rows
+                                                   /\ \A i \in 1..(Len(a) - 1) : a[i] < a[i + 1]
 Covers == (kern = "shipped" /\ k = 1) => Cardinality(Combos(kern, r)) = 64
 =============================================================================
